@@ -666,7 +666,7 @@ MIN_OBLIGATIONS = {"quick": 100, "thorough": 100}
 TRUSTED = ["lemma L-TAYLOR: Lagrange / series remainders of sin, cos, atan: machine-checked in Lean 4 / mathlib (lemmas/Taylor.lean, `./check lemmas`); that cyverif/taylor.py uses exactly these constants is by inspection",
            "own Taylor-form arithmetic cyverif.taylor (exact rationals), canary on every run",
            "own interval arithmetic (outward rounding by nextafter) and forward error analysis cyverif.fperr; cross-checked against 60-digit evaluation by ./check selftest",
-           "lemma L-NORMALIZE (stated, not machine-checked): in binary IEEE arithmetic |fl(x / fl(sqrt(fl(... + x^2 + ...))))| <= 1 when the sum neither underflows nor overflows (sqrt(fl(x^2)) rounds to |x|, rounding is monotone)",
+           "lemma L-NORMALIZE (reduction machine-checked in Lean 4 / mathlib, lemmas/Normalize.lean; the IEEE facts it rests on - monotone rounding, fl(+-1) = +-1, Boldo's fl(sqrt(fl(x^2))) = |x| - stay assumed): in binary IEEE arithmetic |fl(x / fl(sqrt(fl(... + x^2 + ...))))| <= 1 when the sum neither underflows nor overflows (sqrt(fl(x^2)) rounds to |x|, rounding is monotone)",
            "mpmath 120-digit arithmetic as reference for the bounded sweep"]
 ASSUMPTIONS = ["A-FP (floating-point model): IEEE-754 binary64, round to nearest, |fl(a op b) - (a op b)| <= 2^-53 |a op b| + 2^-1074 for + - * /, sqrt correctly rounded, libm sin/cos/tan/atan/asin/acos/atan2/pow within 1 ulp; "
                "CasADi's SX virtual machine and its generated C evaluate the instruction list in order without re-association or fused operations (C09 validates the generated C structurally)",
